@@ -1022,6 +1022,19 @@ func ExecSess(c CaseSess) *vkit.Result {
 	return res
 }
 
+// loopShapeSeen: the loop invariant ("a session that has not run its exit callback still has its two loop
+// goroutines") rests on how the session is built today - a reading and a sending loop, recognised in a dump by their
+// function names. It is applied only once this process has SEEN that shape: some dump in which the live sessions had
+// two recognised goroutines each. A session built another way (one goroutine, other names) never switches it on, and
+// the verdicts then rest on the call log and the end-of-case oracles alone.
+var loopShapeSeen atomic.Bool
+
+func noteLoopShape(goroutines, alive int) {
+	if alive > 0 && goroutines >= 2*alive {
+		loopShapeSeen.Store(true)
+	}
+}
+
 // loopsIntact takes a goroutine dump and checks the loop invariant (see awaitExit); nil = holds.
 func loopsIntact(res *vkit.Result, runs []*sessRun) *vkit.Result {
 	blocks := sessionGoroutines() // a consistent cut; the exit counters are read after it
@@ -1033,7 +1046,8 @@ func loopsIntact(res *vkit.Result, runs []*sessRun) *vkit.Result {
 			one = x
 		}
 	}
-	if len(blocks) < 2*alive {
+	noteLoopShape(len(blocks), alive)
+	if loopShapeSeen.Load() && len(blocks) < 2*alive {
 		return res.Failf("loop-left-without-exit", "%d started sessions have not run OnExit (one of them: session %d, %+v), but only %d goroutines are inside the session loops - a loop has returned without ending its session (exit callback, count, connection close); event log of that session: %s; the goroutines:\n%s",
 			alive, one.idx, one.spec, len(blocks), one.conn.history(), strings.Join(blocks, "\n\n"))
 	}
